@@ -268,6 +268,28 @@ def c02(ck):
                 s.add("decode", r, coin, 1)
                 s.add("free", 1)
         ck.add(Exec("valid-and-first-%s" % lid, s.lines))
+    # no two words of a list stand for the same value: every word of every list, at a data position of a valid phrase,
+    # through both decoders (two words sharing an index would make the substitution of one for the other invisible)
+    for lid in LANG_IDS:
+        order = list(range(2048))
+        rng.shuffle(order)
+        slots = [1] + list(range(3, 16))          # (position 2 carries the reserved feature bit: filler there)
+        for part, grp in enumerate(chunked(order, 14 * 37)):
+            s = Script()
+            s.add("enable", 7)
+            for ws in chunked(grp, 14):
+                w = [0] + [rng.below(2048) for _ in range(15)]
+                for p_, v in zip(slots, ws):
+                    w[p_] = v
+                w[2] &= ~1
+                w = codec.fix_check(w)
+                r = s.string(codec.phrase(lid, w))
+                s.add("decodex", r, 0, lid, 1)
+                s.add("free", 1)
+                if not quick or rng.chance(1, 4):
+                    s.add("decode", r, 0, 1)
+                    s.add("free", 1)
+            ck.add(Exec("every-word-%s-%d" % (lid, part), s.lines))
     # erasure recovery: exactly one word validates at a missing position
     for rep in range(2 if quick else 8):
         lid = "en" if rep == 0 else rng.choice(LANG_IDS)
@@ -357,6 +379,24 @@ def c03(ck):
             s.add("encode", 0, LANG_IDS[(n + len(s.lines)) % 10], rng.choice(COINS_BOUNDARY), 1)
             s.add("free", 0)
         ck.add(Exec("dense-%d" % n, s.lines))
+    # ... and whatever the library's own state is at the time: the enabled features may have changed since the seed
+    # was made, the dependencies may have been injected again, the allocator may be refusing
+    for n in range(24 if quick else 300):
+        s = Script()
+        f = rng.choice([1, 2, 4, 5, 7, 3, 6, 21, 17])
+        s.make_seed(0, rand_secret(rng), rng.below(1024), f, rng, enable=7)
+        lid, coin = rng.choice(LANG_IDS), rng.choice(COINS_BOUNDARY)
+        s.add("encode", 0, lid, coin, 1)
+        for m in (0, rng.below(8), 7 & ~f):
+            s.add("enable", m)
+            s.add("encode", 0, lid, coin, 2)
+            s.add("encode", 0, rng.choice(LANG_IDS), coin, 2)
+        s.add("inject", rng.choice(["BBBBBBBB", "ABCABCAB"]))
+        s.add("encode", 0, lid, coin, 2)
+        s.add("env", "fail=1")
+        s.add("encode", 0, lid, coin, 2)
+        s.add("env", "fail=0")
+        ck.add(Exec("library-state-%d" % n, s.lines))
     # pure function of (secret, birthday, features, coin, language): however the seed object came about
     for n in range(30 if quick else 400):
         s = Script()
@@ -430,6 +470,21 @@ def c04(ck):
         s.add("keygen", 2, coin, 32)
         ck.add(Exec("keygen-%d" % n, s.lines))
     ck.validate()
+    # the inputs are the call's own: derived on the caller's side of the library, not in state shared between calls.
+    # Threads deriving keys from their own seeds at the same time, with the library's static data write-protected:
+    # every KDF call of every thread is judged as above, and a store into library data is a fault
+    scripts = []
+    for t in range(3 if quick else 12):
+        s = Script()
+        for k in range(6 if quick else 40):
+            s.add("env", "rand=" + hx(rand_secret(rng)), "time=%d" % (EPOCH + rng.below(1024) * STEP + 9))
+            s.add("create", 0, rng.below(8))
+            for _ in range(4):
+                s.add("keygen", 0, rng.choice(COINS_BOUNDARY + [rng.below(2048)]), rng.choice([16, 32, 64]))
+            s.add("free", 0)
+        scripts.append(s.lines)
+    for rn, variant in enumerate(["mt_so"] if quick else ["mt_so", "mt_tsan"]):
+        mt_round(ck, rn, variant, ["inject AAAAAAAA", "enable 7"], scripts)
 
 
 # ----------------------------------------------------------------------------------------------- C05
@@ -609,6 +664,15 @@ def c07(ck):
         L = codec.lang(lid)
         for part, grp in enumerate(chunked(list(range(2048)), 512)):
             ck.add(Exec("find-%s-%d" % (lid, part), ["find %s %s" % (lid, hx(L["wb"][i])) for i in grp]))
+    # "every word decodes to its own index" for both signednesses of plain char (the search order of the
+    # accented lists is where it could matter): the same lookups in the -funsigned-char build, and the debug
+    # self-test there
+    for lid in LANG_IDS:
+        L = codec.lang(lid)
+        if quick and not L["accents"] and lid not in ("jp", "zh_s"):
+            continue
+        ck.add(Exec("uchar-find-%s" % lid, ["find %s %s" % (lid, hx(L["wb"][i])) for i in range(2048)], variant="uchar"))
+    ck.add(Exec("selftest-uchar-dbg", ["inject AAAAAAAA", "numlangs"], variant="uchar_dbg"))
     # the registry is frozen whatever the process environment says
     for loc in ("ja_JP.UTF-8", "ko_KR.UTF-8", "es_ES.UTF-8", "fr_FR.UTF-8", "it_IT.UTF-8", "cs_CZ.UTF-8", "pt_BR.UTF-8", "zh_CN.UTF-8", "zh_TW.UTF-8", "en_US.UTF-8", "de_DE"):
         s = Script()
@@ -832,6 +896,10 @@ def c10(ck):
                 for prev in [rng.below(8) for _ in range(rng.below(3))]:
                     s.add("enable", prev)
                 s.add("enable", arg)
+                # only the enabling call changes the mask: injecting dependencies again (to swap the random
+                # source, say) leaves it as configured
+                if (grp_no + m + rep) % 3 == 0:
+                    s.add("inject", rng.choice(["AAAAAAAA", "BBBBBBBB", "ABCABCAB"]))
                 for f in fs:
                     bday = rng.below(1024)
                     idx = codec.words_of(sec, bday, f, 0)
@@ -857,6 +925,8 @@ def c10(ck):
                 ck.add(Exec("gate-r%d-m%d-%d" % (rep, m, grp_no), s.lines))
             s = Script()
             s.add("enable", arg)
+            if m % 2:
+                s.add("inject", "BBBBBBBB")
             for u in list(range(16)) + [0xFFFFFFF8 + m, 0x80000000 | m, 24 + (m ^ 5)]:
                 s.add("env", "rand=" + hx(rand_secret(rng)))
                 s.add("create", 1, u)
@@ -959,6 +1029,8 @@ def c12(ck):
         pws.append(bytes(p["nfc"]))
         pws.append(bytes(p["nfd"]))
     pws += [b"a" * 30, b"x" * 542, b"x" * 543, b"y" * 544, b"z" * 700, ("ü" * 100).encode()]
+    # the password reaches the KDF as given (NFKD changes nothing in ASCII): capitals, digits, punctuation, spaces
+    pws += [b"Correct Horse Battery Staple", b"PIN-2024-XYZ", b"  lead and trail  ", b"Tab\tand\nnewline", b"MiXeD cAsE 0123456789 !\"#$%&'()*+,-./:;<=>?@[\\]^_`{|}~"]
     k = 0
     for n in range(30 if quick else 5000):
         s = Script()
@@ -1070,6 +1142,12 @@ def c17(ck):
             seed_script(s, 0, w, rng)
             s.add("encode", 0, lid, rng.choice(COINS_BOUNDARY) if k % 2 else 0, 1)
             s.add("decodex", 1, 0, lid, 1)
+            if k % 4 >= 2:
+                # "the returned length equals the length of the NUL-terminated output" whatever the allocator does
+                # (the pinned code does not allocate here; one that does must still terminate what it returns)
+                s.add("env", "fail=%d" % (1 + k % 2))
+                s.add("encode", 0, lid, 0, 2)
+                s.add("env", "fail=0")
             ck.add(Exec("ordinary-%s-%d" % (lid, k), s.lines, variant="san" if k % 2 else "plain"))
     ck.extra["upper_bounds_per_language"] = maxima
     ck.validate()
@@ -1264,6 +1342,31 @@ def c09(ck):
                     automatic()
             s.add("env", "fail=0")
             ck.add(Exec("string-%d%s" % (n, order), s.lines))
+    # detection has no memory: whatever was decoded before - successfully, in whichever language - a string that two
+    # lists recognise is reported as such, and a string of one list is decoded in that list
+    amb = [("es", "en", b"impo sort usua cabi venu nobl oliv clim cont barr marc auto prod vaca torn fati")]
+    for k in range(2 if quick else 12):
+        for lid, other in (("zh_s", "zh_t"), ("zh_t", "zh_s")):
+            amb.append((lid, other, codec.phrase(lid, ambiguous_idx(rng, lid))))
+    for n, (l1, l2, a) in enumerate(amb):
+        for prev in (l1, l2, rng.choice([x for x in LANG_IDS if x not in (l1, l2)])):
+            s = Script()
+            s.add("enable", 0)
+            ra = s.string(a)
+            for rep_ in range(2):
+                rp = s.string(codec.phrase(prev, rand_idx(rng)))
+                s.add("decode", rp, 0, 1)            # an unambiguous detection of `prev` ...
+                s.add("free", 1)
+                s.add("decode", ra, 0, 1)            # ... must not colour the next one
+                s.add("free", 1)
+                for lid in (l1, l2):
+                    s.add("decodex", ra, 0, lid, 1)
+                    s.add("free", 1)
+                # and the other way round: after the ambiguous string, a plain phrase of another list
+                ro = s.string(codec.phrase(l2 if rep_ else l1, rand_idx(rng)))
+                s.add("decode", ro, 0, 1)
+                s.add("free", 1)
+            ck.add(Exec("history-%d-%s" % (n, prev), s.lines))
     ck.validate()
     ck.require_outcomes(["Decode:0", "Decode:1", "Decode:2", "Decode:3", "Decode:7", "Decode:6", "DecodeX:2", "DecodeX:0"])
     ck.assumptions += ["the relation between automatic and explicit decoding is a TLC-checked theorem of the specification "
@@ -1638,6 +1741,26 @@ def c15(ck):
         for ex in exit_path_scripts(rng, "libc-r%d" % rep):
             ex.lines = ["inject AAAAA" + rng.choice(["ANN", "NNN", "AAN", "ANA"])] + ex.lines
             ck.add(ex)
+    # blocks of seeds whose CONTENT could be mistaken for something else: the all-zero seed (secret, birthday,
+    # features and check value all 0 - "abandon" x 16), all-ones secrets, a seed equal to a freed block's
+    # wipe pattern: each reached through every constructor, each returned exactly once
+    for rep in range(1 if quick else 6):
+        for sec, t, name in ((bytes(19), 0, "zero"), (bytes(19), EPOCH + 5, "zero-at-epoch"), (bytes([255] * 18 + [63]), EPOCH + 1023 * STEP, "ones"),
+                             (bytes([0xA5] * 18 + [0x25]), EPOCH + 77 * STEP, "a5")):
+            s = Script()
+            s.add("enable", 0)
+            s.add("env", "rand=" + hx(sec), "time=%d" % t)
+            s.add("create", 0, 0)
+            s.add("store", 0, 1)
+            s.add("load", 1, 1)
+            lid = rng.choice(LANG_IDS) if rep else "en"
+            s.add("encode", 0, lid, 0, 1)
+            s.add("decodex", 1, 0, lid, 2)
+            s.add("decode", 1, 0, 3)
+            for h in (0, 1, 2, 3):
+                s.add("free", h)
+            s.add("free", -1)
+            ck.add(Exec("content-%s-%d" % (name, rep), s.lines))
     for n in range(30 if quick else 600):
         ck.add(random_walk(rng, 60, faults=True, name="faultwalk-%d" % n))
     for n in range(4 if quick else 40):
@@ -1870,6 +1993,43 @@ def thread_script(rng, ncalls, mask):
     return s.lines
 
 
+def mt_round(ck, rn, variant, setup, scripts):
+    """One concurrent run: the scripts as threads of one process (library data write-protected in mt_so, ThreadSanitizer
+    in mt_tsan), compared with serial runs of the same scripts on the main thread, every thread's trace judged by TLC."""
+    nthreads = len(scripts)
+    reports = 0
+    # serial reference: the same scripts, one thread at a time (same build) - what each thread must observe
+    serial = []
+    for i, sc in enumerate(scripts):
+        ck.work.record_mt(variant, "serial%d-%d" % (rn, i), setup, [sc], main_thread=True)
+        serial.append(run.result_lines(ck.work.mt_bodies[0]))
+    traces, err = ck.work.record_mt(variant, "run%d-%s" % (rn, variant), setup, scripts, serial=None)
+    # compare on the thread's own part of the trace
+    fixed = []
+    bodies = ck.work.mt_bodies
+    for i, tp in enumerate(traces):
+        lines = open(tp).read().splitlines()
+        mine = run.result_lines(bodies[i])
+        if mine != serial[i] and not any('"e":"Fault"' in l for l in lines[-3:]):
+            lines = lines[:-1] + ['{"e":"Fault","op":"threads","what":"serial-mismatch","sig":0,"inapi":true}', '{"e":"End","complete":false}']
+            with open(tp, "w") as f:
+                f.write("\n".join(lines) + "\n")
+    if "ThreadSanitizer" in err:
+        reports += err.count("WARNING: ThreadSanitizer")
+        ck.notes.append(err[:1500])
+    results = run.judge(ck.work, traces, ck.pid)
+    for i, (tr, res) in enumerate(zip(traces, results)):
+        ex = Exec("run%d-%s-t%d" % (rn, variant, i), setup + scripts[i], variant=variant,
+                  note="one of %d concurrent threads; replay runs this thread's script serially" % nthreads)
+        if res.get("envfault") and not res.get("rejects"):
+            # the normaliser's answers are verified serially by the other checks on the same kind of input; if they
+            # look wrong only here, the library handed the dependency a buffer that another thread was writing to
+            res["rejects"] = [res["envfault"][0].replace('"env-', '"under-threads-env-') + ', {"C20"}']
+            res["envfault"] = []
+        ck.absorb(variant, [ex], tr, res, ck.pid, confirm=False)
+    return reports
+
+
 def c20(ck):
     rng = Rng(ck.seed)
     quick = ck.tier == "quick"
@@ -1915,35 +2075,7 @@ def c20(ck):
             scripts = [[] for _ in range(nthreads)]
             for i, pl in enumerate(paths):
                 scripts[i % nthreads] += pl
-        # serial reference: the same scripts, one thread at a time (same build) - what each thread must observe
-        serial = []
-        for i, sc in enumerate(scripts):
-            ck.work.record_mt(variant, "serial%d-%d" % (rn, i), setup, [sc])
-            serial.append(run.result_lines(ck.work.mt_bodies[0]))
-        traces, err = ck.work.record_mt(variant, "run%d-%s" % (rn, variant), setup, scripts, serial=None)
-        # compare on the thread's own part of the trace
-        fixed = []
-        bodies = ck.work.mt_bodies
-        for i, tp in enumerate(traces):
-            lines = open(tp).read().splitlines()
-            mine = run.result_lines(bodies[i])
-            if mine != serial[i] and not any('"e":"Fault"' in l for l in lines[-3:]):
-                lines = lines[:-1] + ['{"e":"Fault","op":"threads","what":"serial-mismatch","sig":0,"inapi":true}', '{"e":"End","complete":false}']
-                with open(tp, "w") as f:
-                    f.write("\n".join(lines) + "\n")
-        if "ThreadSanitizer" in err:
-            tsan_reports += err.count("WARNING: ThreadSanitizer")
-            ck.notes.append(err[:1500])
-        results = run.judge(ck.work, traces, ck.pid)
-        for i, (tr, res) in enumerate(zip(traces, results)):
-            ex = Exec("run%d-%s-t%d" % (rn, variant, i), setup + scripts[i], variant=variant,
-                      note="one of %d concurrent threads; replay runs this thread's script serially" % nthreads)
-            if res.get("envfault") and not res.get("rejects"):
-                # the normaliser's answers are verified serially by the other checks on the same kind of input; if they
-                # look wrong only here, the library handed the dependency a buffer that another thread was writing to
-                res["rejects"] = [res["envfault"][0].replace('"env-', '"under-threads-env-') + ', {"C20"}']
-                res["envfault"] = []
-            ck.absorb(variant, [ex], tr, res, ck.pid, confirm=False)
+        tsan_reports += mt_round(ck, rn, variant, setup, scripts)
     # the symbols the library keeps in writable static storage must be exactly the three modelled objects
     ck.extra["tsan_reports"] = tsan_reports
     ck.extra["writable_static_symbols"] = writable_symbols(ck)
